@@ -1278,7 +1278,8 @@ func c07Exporters(r *hx.Result, rng *hx.Rng, sp c07xSpec, tieBudget int) error {
 // c07xProbeCacheAfterTruncate: twin stores with the same history and the same truncation, one with a value-log cache
 // (VLogCacheSize > 0, not the default) and one without. What ExportTx answers for a transaction below the truncation point
 // must not depend on the cache (model independent: the twin is the reference). Found by the exporter scenario: the
-// sequential answers after TruncateUptoTx changed over time on a store with a value cache.
+// sequential answers after TruncateUptoTx changed over time on a store with a value cache (TruncateUptoTx did not
+// invalidate vLogCache; repaired — it now evicts the values stored before the discard offsets — the probe stays armed).
 func c07xProbeCacheAfterTruncate(r *hx.Result) error {
 	r.NextCase()
 	type twin struct {
@@ -1412,11 +1413,8 @@ func c07ExportersPart(r *hx.Result, rng *hx.Rng, thorough bool) error {
 			sp.nLive = 0
 		}
 		sp.vcache = []int{0, 0, 16, 256}[rng.Intn(4)]
-		if sp.mode == 2 {
-			// after TruncateUptoTx a value cache makes the answers of ExportTx depend on what happens to be cached
-			// (C07:ExportTx:value-cache-serves-truncated-values, probed on its own): no stable reference to compare with
-			sp.vcache = 0
-		}
+		// (mode 2 too: TruncateUptoTx evicts the values it made unreadable since the repair of
+		// C07:ExportTx:value-cache-serves-truncated-values, so the sequential reference is stable with a value cache)
 		sp.smallBuf = rng.Bool()
 		if c07TooManyHangs() {
 			return nil
